@@ -387,6 +387,23 @@ func execStream(body json.RawMessage) *kernel.Result {
 	case "L":
 		// last token never lost: parse(t) ≡ parse(t+"\n") ≡ parse(t+" ") for a complete text
 		st := refScan(sc.Text)
+		if !st.Unfinished() && !st.Mismatch && !st.InLine && (st.InRune || (st.TrailOp && strings.ContainsRune("%^~", st.LastSignif)) || strings.HasSuffix(sc.Text, "~@")) {
+			// the text stops after a prefix operator (quote, syntax-quote, unquote, unquote-splicing) or inside a
+			// character literal: whatever the parser makes of that (more input, an error), the pending token must not
+			// vanish into a clean result
+			tail := "prefix-op"
+			if st.InRune {
+				tail = "rune"
+			}
+			a := parseWhole(sc.Text, true)
+			res.Execs++
+			res.Sig("L|" + tail + "|" + string(st.LastSignif))
+			res.Probe("L-pending-" + tail)
+			if a.Kind == "none" {
+				fail("C13.L-last-token", "tail:"+tail, "text %q ends in a pending token (%s) and parses cleanly as %s: the token is lost", sc.Text, tail, a)
+			}
+			return res
+		}
 		if st.Unfinished() || st.Mismatch || st.InRune || st.TrailOp {
 			res.Probe("L-skipped-incomplete")
 			return res
@@ -690,6 +707,10 @@ func genStreamScenario(mode string) func(*kernel.RNG, string, int) interface{} {
 			}
 			if r.Chance(0.3) {
 				sc.Text = r.Pick([]string{"42", "a", "(a) b", "\"s\"", "1.5", "a b", "(+ 1 2) 42", "x.y", "'c'", "true", "k:", "// c", "7 // c", "`r`", "0x1F", "-3", "3ULL"})
+			}
+			if r.Chance(0.15) {
+				// a pending token at the very end
+				sc.Text += r.Pick([]string{" ~", " %", " ^", " ~@", " 'a", " '", " '\\", "\n~", " (a) ~"})
 			}
 		}
 		return sc
